@@ -391,6 +391,9 @@ struct StreamEngine : Engine {
 					gtoks.push_back(tok);
 				s2 += tok;
 			}
+			if (giv.ifmts.empty() && r.chance(1, 15))
+				/* a near miss (zero month, zero day, business-day suffix ...): judged differentially, watched by the sanitizer */
+				return s2 + " " + near_miss(r);
 			if (giv.ifmts.empty() && giv.kind == inv::K_DATE && r.chance(1, 6)) {
 				/* a day-of-year date is looked for at the end of a line only */
 				std::string tok = inv::fmt_value("%Y-%j", inv::rand_civ(r));
